@@ -7,7 +7,7 @@ from engine import canon, guarded, refuse
 ID = "C06"
 LEVEL = "proof"
 LEVEL_TEXT = ("Lean 4 theorem C06_program: for EVERY straight-line program over {construct, select (any row/column selection of any "
-              "earlier array, to any depth), whole-array alias a[...], ufunc with scalar / array, concatenate, sort, cumsum, diff, "
+              "earlier array, to any depth), whole-array alias a[...], ufunc with scalar / array, concatenate, sort, cumsum, diff, unique, "
               "assign (any index, any value kind), poke (a write through the flat view or through the numpy array the array was "
               "constructed over), read, read through an index, row sums} and every input, the observation trace of "
               "the heap model (flat buffers + shapes, selections materialised into their own buffer, aliases sharing a buffer, "
@@ -18,17 +18,17 @@ LEVEL_TEXT = ("Lean 4 theorem C06_program: for EVERY straight-line program over 
               "programs run on real objects, on the compiled model and on a CPython reference interpreter.")
 LEVEL_NOTE = ("Trusted: Lean kernel (+ standard axioms), kernel translator, N layer; the heap model's allocation discipline (which "
               "operations share a buffer) is hand-modelled and tied by correspondence -- a re-introduced lazy view shows up as a trace "
-              "difference after a write to the source. where / unique and float data are exercised under C07/C08 only.")
+              "difference after a write to the source. where and float data are exercised under C07/C08 only.")
 TECHNIQUE = "Lean 4 simulation proof (induction over the program) heap model vs store of rows; program-level correspondence"
 DESIGN_REF = "7"
 LEAN_MODULES = ["NpsVerif.Props.C06"]
 KERNELS = ("view2_ends", "calc_lengths", "pos_col_slice", "col_slice_slice", "col_slice_int")
 RULE = ("cases = random well-typed straight-line programs: 1-2 input arrays (shapes with empty rows) + 1..10 statements from the "
-        "14-statement alphabet, selections of selections to any depth, then a final read of every array; a quarter are derivation "
+        "15-statement alphabet, selections of selections to any depth, then a final read of every array; a quarter are derivation "
         "chains (arrays derived from derived arrays, then writes into intermediate ones, no reads in between); input arrays are "
         "constructed over contiguous / strided / reversed / column views of numpy arrays; run with two index-object variants; distinct = distinct programs; non-trivial = >= 1 selection or alias followed by an assignment or read")
 EXHAUSTIVE = {"quick": False, "thorough": False}
-CORRESPONDENCE_ONLY = ["np.where / unique inside programs", "non-integer dtypes"]
+CORRESPONDENCE_ONLY = ["np.where inside programs", "non-integer dtypes"]
 ASSUMPTIONS = []
 
 
@@ -104,8 +104,6 @@ def lean_prog(prog):
 
 
 def lean_request(p):
-    if any(st["s"] == "unique" for st in p["prog"]):
-        return None          # (np.unique inside programs: implementation vs reference interpreter only)
     return {"op": "Heap.run", "prog": lean_prog(p["prog"])}
 
 
